@@ -136,6 +136,7 @@ def run_units(units: List[Any], fn: Callable[[Any], Dict[str, Any]], nproc: Opti
     """Run fn over units in worker processes. VERIF_SEED only permutes dispatch order;
     results are returned in unit order, so everything downstream is seed-independent."""
     nproc = nproc or NPROC
+    t_start = time.time()
     order = list(range(len(units)))
     random.Random(seed()).shuffle(order)
     args = [(i, units[i]) for i in order]
@@ -166,6 +167,10 @@ def run_units(units: List[Any], fn: Callable[[Any], Dict[str, Any]], nproc: Opti
                     pool.terminate()
                     break
                 results[r["_idx"]] = r
+                if os.environ.get("BPMC_PROGRESS"):
+                    done = sum(1 for x in results if x is not None)
+                    if done % 25 == 0:
+                        print("progress: %d/%d units, %.0f s" % (done, len(units), time.time() - t_start), file=sys.stderr, flush=True)
     return results  # entries may be None if a deadline cut the run
 
 
